@@ -483,6 +483,7 @@ def check(pid, tier):
     suites = sorted(set(s for s, _ in cases))
     model_out = run_lines(os.path.join(OCAML_DIR, "model_run"), lines) if okm else None
     mismatch = {}   # suite -> first mismatching case index list
+    ctx.mismatches = []   # the disagreeing cases themselves, for the property's own search for a failing input
     for prof in profiles:
         if not okh:
             break
@@ -520,6 +521,8 @@ def check(pid, tier):
                 same = rel(s, a, mo, io) if rel else (mo == io)
                 if not same:
                     mismatch.setdefault(s, []).append((i, prof))
+                    if len(ctx.mismatches) < 300:
+                        ctx.mismatches.append({"suite": s, "args": a, "model": mo, "impl": io, "profile": prof})
             if prof == profiles[0]:
                 t = mod.nontrivial_tag(s, a, io)
                 if t:
@@ -672,6 +675,13 @@ def replay(path):
     print("impl :", io)
     print("model:", mo)
     print("oracle:", mod.oracle(v["suite"], v["args"], io))
+    if v.get("companion"):
+        # a violation that relates two cases (found by the property's search after an obligation broke)
+        c = v["companion"]
+        line2 = case_line(c["suite"], c["args"])
+        print("companion case :", line2)
+        print("companion impl :", run_lines(harness_exe(v.get("profile", "debug")), [line2])[0])
+        print("what:", v.get("what"))
     return 0
 
 
